@@ -9,7 +9,7 @@ from __future__ import annotations
 import random
 from typing import Any
 
-from vlib.c05_templates import TEMPLATES
+from vlib.c05_templates import DIRECTED, TEMPLATES
 from vlib.c05_units import free_function
 
 IMPORTS = """\
@@ -162,6 +162,14 @@ def assemble(name: str, units: list[dict[str, Any]]) -> dict[str, Any]:
 
 def generate(rng: random.Random, name: str, n_units: int, dialect: str = "c05") -> dict[str, Any]:
     units = [make_unit(rng, f"u{k}", dialect) for k in range(n_units)]
+    for j, f in enumerate(DIRECTED):
+        u = f(rng, f"u{n_units + j}", False)
+        u["name"] = f"u{n_units + j}"
+        u.setdefault("classes", {})
+        u.setdefault("prelude", "")
+        for k, c in enumerate(u["calls"]):
+            c["id"] = f"{u['name']}#{k}"
+        units.append(u)
     return assemble(name, units)
 
 
